@@ -451,7 +451,10 @@ def obligations(tier, seed):
     c1a, _ = _cubes(1, core + extra, ['full', 'empty', 'alt'], [nonslice], ['full'])
     c1b, _ = _cubes(1, core, ['full', 'alt'], [[GET_SL, DEL_SL]], ['narrow'])
     c1c, _ = _cubes(1, core, ['full', 'alt'], [[SET_SL]], ['tiny'])
-    c1b += c1c
+    # slice assignment with every small start / stop / step / length combination (empty slices inside the fixed prefix
+    # included) on two signatures with *args
+    c1e, _ = _cubes(1, [core[0], core[2]], ['full', 'alt'], [[SET_SL]], ['narrow'])
+    c1b += c1c + c1e
     c2, _ = _cubes(2, [core[0]], ['full'], [edits, edits], [wm, wm])
     c2b, _ = _cubes(2, [core[2]], ['alt'], [[SET_IDX, DEL_IDX, DEL_SL, SET_NAME], [SET_IDX, DEL_IDX, SET_SL]],
                     [wm, wm])
